@@ -48,6 +48,7 @@ EXTENDS Naturals, Sequences, TLC
 
 CONSTANTS W,            \* wrap modulus of the sequence counter
           Anns,         \* what the offers announce: subset of {"both", "size", "hash", "none"}
+          Devs,         \* the receiver's output device: subset of {"all", "short", "fail"}
           Sizes,        \* set of file sizes in blocks
           MaxFaults,    \* bound on Fault steps per behaviour
           MaxInject,    \* bound on Inject steps per behaviour
@@ -59,6 +60,11 @@ CONSTANTS W,            \* wrap modulus of the sequence counter
 
 VARIABLES n,                            \* size of the file in blocks
           ann,                          \* what the offer announces about the file (size and/or MD5 hash)
+          dev, devAt,                   \* output device of the receiving application: accepts everything ("all"), or
+                                        \* at its devAt-th write accepts only part of the block and says so without an
+                                        \* error ("short"), or fails (write returns -1, "fail")
+          nw,                           \* writes to the device so far
+          hsh,                          \* payloads the receiver's running hash has seen (got: what the device holds)
           fk,                           \* kind of the last stream fault ("none": no fault yet)
           sState, sErr, sSeq, sOff,     \* sender job: state, error, next seq, blocks sent
           sReq, sNext,                  \* id of the outstanding request, next fresh id
@@ -68,7 +74,7 @@ VARIABLES n,                            \* size of the file in blocks
           nf, ni,                       \* stream faults / injected foreign blocks so far
           hist
 
-mvars == <<n, ann, fk, sState, sErr, sSeq, sOff, sReq, sNext, rState, rErr, rSeq, got, s2r, r2s, held, nf, ni>>
+mvars == <<n, ann, dev, devAt, hsh, nw, fk, sState, sErr, sSeq, sOff, sReq, sNext, rState, rErr, rSeq, got, s2r, r2s, held, nf, ni>>
 vars  == <<mvars, hist>>
 
 StreamFaults == {"Lose", "Drop", "Dup", "Flip", "WrongSid", "WrongFrom", "Swap", "EarlyClose"}
@@ -83,6 +89,7 @@ File(k) == [i \in 1..k |-> i]
 
 Init ==
     /\ n \in Sizes /\ ann \in Anns /\ fk = "none"
+    /\ dev \in Devs /\ devAt \in (IF dev = "all" THEN {0} ELSE 1..n) /\ hsh = <<>> /\ nw = 0
     /\ sState = "Idle" /\ sErr = "NoError" /\ sSeq = 0 /\ sOff = 0 /\ sReq = 0 /\ sNext = 1
     /\ rState = "None" /\ rErr = "NoError" /\ rSeq = 0 /\ got = <<>>
     /\ s2r = <<>> /\ r2s = <<>> /\ held = NoMsg
@@ -101,7 +108,7 @@ Offer ==
     /\ sState' = "Offer" /\ sReq' = sNext /\ sNext' = sNext + 1
     /\ s2r' = Append(s2r, Ctl("offer", sNext))
     /\ Log([a |-> "Offer"])
-    /\ UNCHANGED <<n, ann, fk, sErr, sSeq, sOff, rState, rErr, rSeq, got, r2s, held, nf, ni>>
+    /\ UNCHANGED <<n, ann, dev, devAt, fk, sErr, sSeq, sOff, rState, rErr, rSeq, got, hsh, nw, r2s, held, nf, ni>>
 
 \* streamInitiationResultReceived / ibbResponseReceived
 SenderOn(a) ==
@@ -136,7 +143,7 @@ SDeliver ==
     /\ r2s' = Tail(r2s)
     /\ SenderOn(Head(r2s))
     /\ Log([a |-> "SDeliver"])
-    /\ UNCHANGED <<n, ann, fk, rState, rErr, rSeq, got, nf, ni>>
+    /\ UNCHANGED <<n, ann, dev, devAt, fk, rState, rErr, rSeq, got, hsh, nw, nf, ni>>
 
 (* --- receiver ------------------------------------------------------------- *)
 \* the job is found by sender JID and session id (getIncomingJobBySid)
@@ -149,8 +156,9 @@ Reply(q, m, t) == IF m.from = "S" THEN Append(q, Rep(t, m.id)) ELSE q
 \* Sizes are in blocks here: an altered block keeps its length.
 AnnSize(a) == a \in {"both", "size"}
 AnnHash(a) == a \in {"both", "hash"}
-CheckData == IF /\ (AnnSize(ann) /\ n > 0) => Len(got) = n
-                /\ AnnHash(ann) => got = File(n)
+DevMisbehaved == dev # "all" /\ nw >= devAt
+CheckData == IF /\ (AnnSize(ann) /\ n > 0) => (Len(got) = n /\ ~(dev = "short" /\ DevMisbehaved))   \* bytes the device accepted
+                /\ AnnHash(ann) => hsh = File(n)                                                   \* bytes received
              THEN "NoError" ELSE "FileCorrupt"
 
 RDeliver ==
@@ -159,31 +167,40 @@ RDeliver ==
        /\ s2r' = Tail(s2r)
        /\ CASE m.t = "offer" ->
                  IF rState = "None" /\ Matched(m)
-                 THEN rState' = "Start" /\ r2s' = Reply(r2s, m, "res") /\ UNCHANGED <<rErr, rSeq, got>>
-                 ELSE r2s' = Reply(r2s, m, "err") /\ UNCHANGED <<rState, rErr, rSeq, got>>
+                 THEN rState' = "Start" /\ r2s' = Reply(r2s, m, "res") /\ UNCHANGED <<rErr, rSeq, got, hsh, nw>>
+                 ELSE r2s' = Reply(r2s, m, "err") /\ UNCHANGED <<rState, rErr, rSeq, got, hsh, nw>>
             [] m.t = "open" ->
                  IF rState = "Start" /\ Matched(m)
-                 THEN rState' = "Transfer" /\ r2s' = Reply(r2s, m, "res") /\ UNCHANGED <<rErr, rSeq, got>>
-                 ELSE r2s' = Reply(r2s, m, "err") /\ UNCHANGED <<rState, rErr, rSeq, got>>
+                 THEN rState' = "Transfer" /\ r2s' = Reply(r2s, m, "res") /\ UNCHANGED <<rErr, rSeq, got, hsh, nw>>
+                 ELSE r2s' = Reply(r2s, m, "err") /\ UNCHANGED <<rState, rErr, rSeq, got, hsh, nw>>
             [] m.t = "data" ->
                  IF rState = "Transfer" /\ Matched(m)
                  THEN IF m.seq = rSeq
                       THEN \* expected block: write, count (with wrap), acknowledge
-                           /\ got' = Append(got, m.pay) /\ rSeq' = (rSeq + 1) % W
+                           \* writeData: the counter advances by what the device accepted, the hash sees the
+                           \* received block; a failed write (-1) leaves both alone.  The block is acknowledged
+                           \* in every case (the result of writeData is not looked at).
+                           /\ nw' = nw + 1
+                           /\ IF dev = "all" \/ nw + 1 # devAt
+                              THEN got' = Append(got, m.pay) /\ hsh' = Append(hsh, m.pay)
+                              ELSE IF dev = "short"
+                              THEN got' = Append(got, 0) /\ hsh' = Append(hsh, m.pay)     \* part of the block: not the block
+                              ELSE UNCHANGED <<got, hsh>>
+                           /\ rSeq' = (rSeq + 1) % W
                            /\ r2s' = Reply(r2s, m, "res") /\ UNCHANGED <<rState, rErr>>
                       ELSE \* out of sequence: refuse, the session is invalid
                            /\ rState' = "Finished" /\ rErr' = "Protocol"
-                           /\ r2s' = Reply(r2s, m, "err") /\ UNCHANGED <<rSeq, got>>
-                 ELSE r2s' = Reply(r2s, m, "err") /\ UNCHANGED <<rState, rErr, rSeq, got>>
+                           /\ r2s' = Reply(r2s, m, "err") /\ UNCHANGED <<rSeq, got, hsh, nw>>
+                 ELSE r2s' = Reply(r2s, m, "err") /\ UNCHANGED <<rState, rErr, rSeq, got, hsh, nw>>
             [] m.t = "close" ->
                  IF rState # "None" /\ Matched(m)
                  THEN /\ r2s' = Reply(r2s, m, "res")
                       /\ IF rState = "Finished" THEN UNCHANGED <<rState, rErr>>
                          ELSE rState' = "Finished" /\ rErr' = CheckData
-                      /\ UNCHANGED <<rSeq, got>>
-                 ELSE r2s' = Reply(r2s, m, "err") /\ UNCHANGED <<rState, rErr, rSeq, got>>
+                      /\ UNCHANGED <<rSeq, got, hsh, nw>>
+                 ELSE r2s' = Reply(r2s, m, "err") /\ UNCHANGED <<rState, rErr, rSeq, got, hsh, nw>>
     /\ Log([a |-> "RDeliver"])
-    /\ UNCHANGED <<n, ann, fk, sState, sErr, sSeq, sOff, sReq, sNext, held, nf, ni>>
+    /\ UNCHANGED <<n, ann, dev, devAt, fk, sState, sErr, sSeq, sOff, sReq, sNext, held, nf, ni>>
 
 (* --- network ---------------------------------------------------------------- *)
 Fault(k) ==
@@ -201,7 +218,7 @@ Fault(k) ==
          [] k = "EarlyClose" -> s2r' = <<Ctl("close", 0)>> \o rest /\ UNCHANGED <<r2s, held>>
     /\ nf' = nf + 1 /\ fk' = k
     /\ Log([a |-> "Fault", k |-> k])
-    /\ UNCHANGED <<n, ann, sState, sErr, sSeq, sOff, sReq, sNext, rState, rErr, rSeq, got, ni>>
+    /\ UNCHANGED <<n, ann, dev, devAt, sState, sErr, sSeq, sOff, sReq, sNext, rState, rErr, rSeq, got, hsh, nw, ni>>
 
 \* an element that is not part of the stream, at any point of the transfer: an <open/>, a block
 \* (carrying the sequence number the receiver expects) or a <close/> with the RIGHT session id from a
@@ -215,7 +232,7 @@ Inject(w, t, seq) ==
     /\ s2r' = <<Msg(t, 0, IF t = "data" THEN seq ELSE 0, 0, 0, IF w = "sid" THEN "bad" ELSE "ok", InjectFrom(w))>> \o s2r
     /\ ni' = ni + 1
     /\ Log([a |-> "Inject", w |-> w, t |-> t])
-    /\ UNCHANGED <<n, ann, fk, sState, sErr, sSeq, sOff, sReq, sNext, rState, rErr, rSeq, got, r2s, held, nf>>
+    /\ UNCHANGED <<n, ann, dev, devAt, fk, sState, sErr, sSeq, sOff, sReq, sNext, rState, rErr, rSeq, got, hsh, nw, r2s, held, nf>>
 
 (* --- k fault-free rounds as one step ---------------------------------------- *)
 Steady ==
@@ -225,13 +242,13 @@ Steady ==
     /\ sSeq = (rSeq + 1) % W
 
 Burst(k) ==
-    /\ Steady /\ k >= 1 /\ sOff + k <= n
-    /\ got' = got \o [i \in 1..k |-> sOff + i - 1]
+    /\ Steady /\ k >= 1 /\ sOff + k <= n /\ dev = "all"
+    /\ got' = got \o [i \in 1..k |-> sOff + i - 1] /\ hsh' = hsh \o [i \in 1..k |-> sOff + i - 1] /\ nw' = nw + k
     /\ rSeq' = (rSeq + k) % W /\ sSeq' = (sSeq + k) % W
     /\ sOff' = sOff + k /\ sReq' = sReq + k /\ sNext' = sNext + k
     /\ s2r' = <<Msg("data", sReq + k, (rSeq + k) % W, sOff + k, sOff + k, "ok", "S")>>
     /\ Log([a |-> "Burst", k |-> k])
-    /\ UNCHANGED <<n, ann, fk, sState, sErr, rState, rErr, r2s, held, nf, ni>>
+    /\ UNCHANGED <<n, ann, dev, devAt, fk, sState, sErr, rState, rErr, r2s, held, nf, ni>>
 
 Next ==
     \/ Offer \/ RDeliver \/ SDeliver
@@ -257,25 +274,30 @@ Success(st, er) == st = "Finished" /\ er = "NoError"
 \* data by anyone, so only the fault-free clause is claimed.  (The sequence numbers catch
 \* duplicates and reorderings in the middle of a stream whatever is announced; not claimed.)
 Detectable(k, a) == AnnHash(a) \/ (a = "size" /\ k # "Flip")
-P_Safe(a, rs, re, eq)     == (AnnHash(a) /\ Success(rs, re)) => eq
+\* ... and on the output device: a device that accepts only part of a block (and says so) is noticed
+\* through the announced size (the counter advances by what was accepted; the hash is over what was
+\* received and cannot tell), a device whose write fails through size or hash; with less announced
+\* the unannounced transfer cannot notice (documented limit, see docs/C19.md "C19-6").
+SafeClaim(a, d) == CASE d = "all" -> AnnHash(a) [] d = "short" -> AnnSize(a) [] d = "fail" -> AnnSize(a) \/ AnnHash(a)
+P_Safe(a, d, rs, re, eq)  == (SafeClaim(a, d) /\ Success(rs, re)) => eq
 P_FaultDetected(a, k, nflt, rs, re) == (nflt = 1 /\ Detectable(k, a)) => ~Success(rs, re)
-P_CleanSuccess(nflt, q, rs, re, ss, se, eq) == (q /\ nflt = 0) => (Success(rs, re) /\ Success(ss, se) /\ eq)
+P_CleanSuccess(nflt, d, q, rs, re, ss, se, eq) == (q /\ nflt = 0 /\ d = "all") => (Success(rs, re) /\ Success(ss, se) /\ eq)
 
 Quiescent == sState # "Idle" /\ s2r = <<>> /\ r2s = <<>>
 
-Safe          == P_Safe(ann, rState, rErr, got = File(n))
+Safe          == P_Safe(ann, dev, rState, rErr, got = File(n))
 FaultDetected == P_FaultDetected(ann, fk, nf, rState, rErr)
-CleanSuccess  == P_CleanSuccess(nf, Quiescent, rState, rErr, sState, sErr, got = File(n))
+CleanSuccess  == P_CleanSuccess(nf, dev, Quiescent, rState, rErr, sState, sErr, got = File(n))
 
 \* fault-free states are a function of the progress (pins down Burst's closed form)
 CleanInv ==
-    (nf = 0 /\ ni = 0 /\ s2r # <<>> /\ s2r[1].t = "data") =>
+    (nf = 0 /\ ni = 0 /\ dev = "all" /\ s2r # <<>> /\ s2r[1].t = "data") =>
         /\ Steady
         /\ got = File(sOff - 1) /\ rSeq = (sOff - 1) % W /\ sReq = sOff + 2 /\ sNext = sOff + 3
 
 \* an element that does not come from the offering full JID for this session never changes the job
 ForeignInert ==
-    [][(s2r # <<>> /\ ~Matched(Head(s2r)) /\ s2r' = Tail(s2r)) => UNCHANGED <<rState, rErr, rSeq, got>>]_vars
+    [][(s2r # <<>> /\ ~Matched(Head(s2r)) /\ s2r' = Tail(s2r)) => UNCHANGED <<rState, rErr, rSeq, got, hsh, nw>>]_vars
 \* the same on two consecutive observations (rs, re: state and error of the job, rw: blocks written)
 P_ForeignInert(foreign, rs0, re0, rw0, rs1, re1, rw1) == foreign => (rs1 = rs0 /\ re1 = re0 /\ rw1 = rw0)
 
@@ -292,8 +314,8 @@ TypeOK ==
 Termination == <>[]((s2r = <<>> /\ r2s = <<>>) /\ sState # "Idle")
 
 \* re-initialisation used by the trace specification at an execution boundary
-Reinit(k, a) ==
-    /\ n' = k /\ ann' = a /\ fk' = "none"
+Reinit(k, a, d, at) ==
+    /\ n' = k /\ ann' = a /\ fk' = "none" /\ dev' = d /\ devAt' = at /\ hsh' = <<>> /\ nw' = 0
     /\ sState' = "Idle" /\ sErr' = "NoError" /\ sSeq' = 0 /\ sOff' = 0 /\ sReq' = 0 /\ sNext' = 1
     /\ rState' = "None" /\ rErr' = "NoError" /\ rSeq' = 0 /\ got' = <<>>
     /\ s2r' = <<>> /\ r2s' = <<>> /\ held' = NoMsg
